@@ -552,14 +552,15 @@ fn parse_qualified_rule(input: &mut StepParser, ss: &mut StyleSheetTransformer) 
         }
         // `:host` later in the selector (`.a, :host`, `a:host`) is a combination as well
         let r = input.try_parse::<_, _, ParseError<()>>(|input| {
-            let mut after_colon = false;
+            // (`::host` is a pseudo-element of that name, not the `:host` pseudo-class)
+            let mut colons = 0;
             let mut found = None;
             loop {
                 let next = input.next_including_whitespace()?;
                 match &*next {
                     Token::CurlyBracketBlock => break,
                     Token::Ident(x) | Token::Function(x)
-                        if after_colon && x.eq_ignore_ascii_case("host") =>
+                        if colons == 1 && x.eq_ignore_ascii_case("host") =>
                     {
                         if found.is_none() {
                             found = Some(input.position());
@@ -567,7 +568,7 @@ fn parse_qualified_rule(input: &mut StepParser, ss: &mut StyleSheetTransformer) 
                     }
                     _ => {}
                 }
-                after_colon = *next == Token::Colon;
+                colons = if *next == Token::Colon { colons + 1 } else { 0 };
             }
             let Some(pos) = found else {
                 return Err(input.new_custom_error(()));
